@@ -14,7 +14,7 @@ META = dict(
     functions_encoded=['(*Ar).Next', 'deb.parseArEntry', 'deb.toDecimal', 'deb.LoadAr', 'deb.checkAr', 'deb.Load', 'deb.loadDeb', 'deb.loadDeb2', 'deb.loadDeb2Control', 'deb.loadDeb2Data', '(*ArEntry).IsTarfile/Tarfile', 'deb.DecompressorFor', 'io.NewSectionReader', 'strconv.Atoi', 'strings.TrimSpace', 'bytes.Reader.ReadAt'],
     stubs=['io.ReaderAt for the step: serves count (<= 60) arbitrary bytes at the current offset, an error iff count < 60 (io.ReaderAt contract)',
            'archive/tar as in C14: an abstract entry list; a member that is not such a container is a malformed tarball (the real archive/tar on hostile bytes is outside the claim, as the statement says for the decoders)'],
-    bounds={'quick': 'one step of Next from any offset in [0, 2^62), the other columns holding a valid header: each column in turn with 3 arbitrary bytes (all 256 values) left-aligned, 2 arbitrary bytes right-aligned, and at full width over [0-9 +-a] (name also / and .); the magic with 2 arbitrary bytes; size (2 arbitrary bytes) and magic together; all four numeric columns together with 2 bytes over [0-9 +-a]; short reads of 0, 1, 59 bytes; whole-archive iteration over every byte string of length <= 3 after the global magic and over a valid member followed by up to 2 arbitrary bytes; .deb loading: debian-binary holding 0-3 arbitrary bytes or (0-2 bytes, newline, 0-2 bytes), each member name with 2 arbitrary bytes in front of, behind or instead of it, a control member of 0-2 arbitrary bytes, 8 reorderings / duplications / omissions of the members, a valid package cut at every offset',
+    bounds={'quick': 'one step of Next from any offset in [0, 2^62), the other columns holding a valid header: each column in turn with 3 arbitrary bytes (all 256 values) left-aligned, 2 arbitrary bytes right-aligned, and at full width over [0-9 +-a] (name also / and .); the magic with 2 arbitrary bytes; size (2 arbitrary bytes) and magic together; all four numeric columns together with 2 bytes over [0-9 +-a]; short reads of 0, 1, 59 bytes; whole-archive iteration over every byte string of length <= 3 after the global magic and over a valid member followed by up to 2 arbitrary bytes; .deb loading: debian-binary holding 0-3 arbitrary bytes or (0-2 bytes, newline, 0-2 bytes), each member name with 2 arbitrary bytes in front of, behind or instead of it, a control member of 0-2 arbitrary bytes, 8 reorderings / duplications / omissions of the members, arbitrary bytes under each compressed member name, a non-tarball sibling member under every rotation of the member map, a valid package cut at every offset',
             'thorough': 'debian-binary up to 4 bytes, names 3, raw control 3; size and magic and one more column together; numeric columns together at 4 bytes'},
     outside_claim=['the decompressors and archive/tar on hostile streams (also excluded by the statement)', 'offsets beyond 2^62'],
     assumptions=['progress of at least 60 bytes per successful step bounds the number of steps by len/60; a step depends only on the bytes served and the offset, so repeated loading gives the same outcome'])
@@ -53,6 +53,13 @@ def jobs(tier):
         js.append(dict(name='deb_name_%d' % which, kind='deb', what='name', which=which, n=2 if tier == 'quick' else 3))
     for n in range(0, 3 if tier == 'quick' else 4):
         js.append(dict(name='deb_rawctl_%d' % n, kind='deb', what='rawctl', n=n))
+    # the same under every compressed member name (the decoder constructors see the arbitrary bytes), control and data
+    for ext in (b'.gz', b'.xz', b'.bz2', b'.lzma', b'.zst'):
+        for n in (0, 2):
+            js.append(dict(name='deb_rawctl%s_%d' % (ext.decode(), n), kind='deb', what='rawctl', n=n, ext=ext))
+    # a non-tarball sibling of the control / data member (control.sig ...), under every rotation of the member map
+    for sib in (b'control.sig', b'data.sig', b'control.tar.sig'):
+        js.append(dict(name='deb_sibling_%s' % sib.decode(), kind='deb', what='sibling', sib=sib))
     for order in range(1, 9):
         js.append(dict(name='deb_order_%d' % order, kind='deb', what='order', order=order))
     for lo in range(0, 420, 60):
@@ -119,7 +126,14 @@ def run_deb(env, job):
     elif w == 'rawctl':
         args[4] = symstr('c', job['n'])
         args[5] = True
-        sample = 'control member holding %d arbitrary bytes instead of a tarball' % job['n']
+        if job.get('ext'):
+            args[2] = b'control.tar' + job['ext']
+        sample = 'control member %s holding %d arbitrary bytes instead of a tarball' % ((b'control.tar' + job.get('ext', b'')).decode(), job['n'])
+    elif w == 'sibling':
+        args[6] = 9
+        args[4] = job['sib']
+        return run_harness(env, PKG, 'VerifC15Deb', args, assume, unwind=400, interp_kw=dict(map_orders='rot', map_order_filter='ArEntry'),
+                           sample='a member %s beside the tarballs, every rotation of the member map, loaded twice' % job['sib'].decode())
     elif w == 'order':
         args[6] = job['order']
         sample = 'member order / duplication / omission variant %d' % job['order']
@@ -131,6 +145,13 @@ def run_deb(env, job):
             rs.append(run_harness(env, PKG, 'VerifC15Deb', args2, [], unwind=400, sample='valid package cut after %d bytes' % t))
         return merge_results(rs)
     return run_harness(env, PKG, 'VerifC15Deb', args, assume, unwind=400, sample=sample)
+
+
+def replay_args(c):
+    a = list(c['args'])
+    if c['func'] == 'VerifC15Deb' and a[6] == 9:
+        a[7] = -300      # native map iteration order is random: load repeatedly
+    return a
 
 
 def validation_calls(env, seed):
